@@ -332,6 +332,22 @@ pub fn replay(o: &Opts) -> Value {
                                     let n = vdoc.len();
                                     let mut cutsets: Vec<Vec<usize>> = vec![vec![1; n + 1], vec![2; n / 2 + 1], vec![3; n / 3 + 1], vec![7; n / 7 + 1], vec![n.max(1)]];
                                     cutsets.push(crate::gen::random_cuts(&mut rng, n));
+                                    // "any reader": one that answers `Interrupted` before every piece delivers the same bytes
+                                    if *vname == "plain" && dynty.is_none() {
+                                        for sz in [1usize, 2, 5] {
+                                            let r = crate::family::de_reader_intr(ty, vdoc.as_bytes(), &vec![sz; n / sz + 1]);
+                                            runs += 1;
+                                            cmp += 1;
+                                            let same = match (&d, &r) {
+                                                (Ok(a), Ok(b)) => a == b,
+                                                (Err(_), Err(_)) => true,
+                                                _ => false,
+                                            };
+                                            if !same {
+                                                note(&mut local_bad, &["c14"], "from_str-vs-from_reader(interrupted before every piece)", json!({"doc": vdoc, "piece_size": sz, "str": format!("{d:?}"), "reader": format!("{r:?}")}));
+                                            }
+                                        }
+                                    }
                                     for cuts in cutsets {
                                         let r = de_reader(ty, vdoc.as_bytes(), &cuts);
                                         runs += 1;
@@ -395,6 +411,40 @@ pub fn replay(o: &Opts) -> Value {
             }
         }
     }
+    // deterministic: a Serialize implementation that drives the split key / value protocol of maps WRONGLY (a value without a
+    // key): the serializer answers with an error (or a well-formed document), it does not panic
+    if o.aspect == "c13" {
+        let (r3, bad3) = misbehaving_map_clients();
+        runs += r3;
+        cmp += r3;
+        if let Some((what, detail)) = bad3 {
+            viol += 1;
+            if files.len() < 5 {
+                let path = format!("{}/{}-client-{}.json", o.out_dir, o.prop, files.len());
+                std::fs::create_dir_all(&o.out_dir).ok();
+                std::fs::write(&path, serde_json::to_string_pretty(&json!({"property": o.prop, "kind": "serde-client", "aspect": o.aspect, "what": what, "detail": detail})).unwrap()).ok();
+                println!("VIOLATION property={} replay={}", o.prop, path);
+                files.push(path);
+            }
+        }
+    }
+    // deterministic: content shapes of `$value` that the data-driven client does not produce (tuple STRUCTS, tuples, unit items):
+    // indentation adds white space between markup only - read back, the indented output is the plain one
+    if o.aspect == "c19" || o.aspect == "c13" {
+        let (r4, bad4) = value_content_shapes();
+        runs += r4;
+        cmp += r4;
+        if let Some((what, detail)) = bad4 {
+            viol += 1;
+            if files.len() < 5 {
+                let path = format!("{}/{}-shapes-{}.json", o.out_dir, o.prop, files.len());
+                std::fs::create_dir_all(&o.out_dir).ok();
+                std::fs::write(&path, serde_json::to_string_pretty(&json!({"property": o.prop, "kind": "serde-shapes", "aspect": o.aspect, "what": what, "detail": detail})).unwrap()).ok();
+                println!("VIOLATION property={} replay={}", o.prop, path);
+                files.push(path);
+            }
+        }
+    }
     // deterministic: values nested beyond the indent cache (depth x width > 128 bytes), every aspect
     let (r2, bad) = deep_nesting();
     runs += r2;
@@ -418,6 +468,144 @@ pub fn replay(o: &Opts) -> Value {
         devs.insert("C14-1".into(), json!(known_c14_1));
     }
     json!({"behaviours": n, "runs": runs, "comparisons": cmp, "nontrivial": nontriv, "violations": viol, "samples": samples, "drift": d, "devs_used": devs})
+}
+
+/// Mixed content given as a tuple struct / tuple / Vec of the same items inside a `$value` field, serialized plain and with
+/// three indentations: dropping the white-space-only text, the indented document reads back as the plain one (text payloads
+/// byte-identical), and the three container kinds give the same plain document.
+pub fn value_content_shapes() -> (u64, Option<(String, Value)>) {
+    use serde::Serialize;
+    #[derive(Serialize, Clone)]
+    enum It {
+        Br,
+        Node { #[serde(rename = "@k")] k: String },
+        #[serde(rename = "$text")]
+        T(String),
+    }
+    #[derive(Serialize)]
+    struct P2(It, It);
+    #[derive(Serialize)]
+    struct P3(It, It, It);
+    #[derive(Serialize)]
+    struct HS2 { #[serde(rename = "@id")] id: u8, #[serde(rename = "$value")] c: P2 }
+    #[derive(Serialize)]
+    struct HS3 { #[serde(rename = "$value")] c: P3 }
+    #[derive(Serialize)]
+    struct HT3 { #[serde(rename = "$value")] c: (It, It, It) }
+    #[derive(Serialize)]
+    struct HV { #[serde(rename = "$value")] c: Vec<It> }
+    fn ser<T: Serialize>(v: &T, indent: Option<(char, usize)>) -> Result<String, String> {
+        let mut out = String::new();
+        let mut s = quick_xml::se::Serializer::with_root(&mut out, Some("root")).map_err(|e| e.to_string())?;
+        if let Some((c, n)) = indent {
+            s.indent(c, n);
+        }
+        v.serialize(s).map_err(|e| e.to_string())?;
+        Ok(out)
+    }
+    let t = |x: &str| It::T(x.to_string());
+    let n = || It::Node { k: "<".into() };
+    let triples: Vec<(It, It, It)> = vec![
+        (t("some text"), It::Br, t("tail")),
+        (It::Br, t("x"), It::Br),
+        (n(), t("a b"), n()),
+        (t("t"), n(), It::Br),
+        (It::Br, It::Br, t("end")),
+    ];
+    let mut runs = 0u64;
+    for (a, b, c) in triples {
+        let r = catch_unwind(AssertUnwindSafe(|| -> Result<(), String> {
+            let plain3 = ser(&HS3 { c: P3(a.clone(), b.clone(), c.clone()) }, None)?;
+            let plain_t = ser(&HT3 { c: (a.clone(), b.clone(), c.clone()) }, None)?;
+            let plain_v = ser(&HV { c: vec![a.clone(), b.clone(), c.clone()] }, None)?;
+            if plain3 != plain_t || plain3 != plain_v {
+                return Err(format!("tuple struct / tuple / Vec of the same items differ: {plain3:?} / {plain_t:?} / {plain_v:?}"));
+            }
+            let plain2 = ser(&HS2 { id: 1, c: P2(a.clone(), b.clone()) }, None)?;
+            for indent in [(' ', 2usize), ('\t', 1), (' ', 0), (' ', 9)] {
+                for (what, plain, ind) in [
+                    ("tuple struct of 3", &plain3, ser(&HS3 { c: P3(a.clone(), b.clone(), c.clone()) }, Some(indent))?),
+                    ("tuple of 3", &plain3, ser(&HT3 { c: (a.clone(), b.clone(), c.clone()) }, Some(indent))?),
+                    ("Vec of 3", &plain3, ser(&HV { c: vec![a.clone(), b.clone(), c.clone()] }, Some(indent))?),
+                    ("tuple struct of 2 after an attribute", &plain2, ser(&HS2 { id: 1, c: P2(a.clone(), b.clone()) }, Some(indent))?),
+                ] {
+                    well_formed(&ind)?;
+                    let p = normalize(read_back(plain.as_bytes())?, true);
+                    let i = normalize(read_back(ind.as_bytes())?, true);
+                    if p != i {
+                        return Err(format!("{what}, indent {indent:?}: the indented document {ind:?} does not read back as the plain one {plain:?}"));
+                    }
+                }
+            }
+            Ok(())
+        }));
+        runs += 1;
+        match r {
+            Ok(Ok(())) => {}
+            Ok(Err(e)) => return (runs, Some(("value-content-shapes".into(), json!({"error": e})))),
+            Err(_) => return (runs, Some(("panic".into(), json!({"check": "value_content_shapes"})))),
+        }
+    }
+    (runs, None)
+}
+
+/// Hand-written `Serialize` implementations that call `SerializeMap::serialize_value` while no key is pending (first call,
+/// twice after one key, after an entry), at the root and inside a struct field.
+pub fn misbehaving_map_clients() -> (u64, Option<(String, Value)>) {
+    use serde::ser::{SerializeMap, SerializeStruct, Serializer as _};
+    struct Bad(u8);
+    impl serde::Serialize for Bad {
+        fn serialize<S: serde::Serializer>(&self, s: S) -> Result<S::Ok, S::Error> {
+            let mut m = s.serialize_map(None)?;
+            match self.0 {
+                0 => m.serialize_value("v")?,
+                1 => {
+                    m.serialize_key("k")?;
+                    m.serialize_value("v")?;
+                    m.serialize_value("w")?;
+                }
+                2 => {
+                    m.serialize_entry("@a", "1")?;
+                    m.serialize_value("w")?;
+                }
+                _ => {
+                    m.serialize_key("k")?;
+                    m.serialize_value("v")?;
+                }
+            }
+            m.end()
+        }
+    }
+    struct Outer(u8);
+    impl serde::Serialize for Outer {
+        fn serialize<S: serde::Serializer>(&self, s: S) -> Result<S::Ok, S::Error> {
+            let mut st = s.serialize_struct("Outer", 2)?;
+            st.serialize_field("@id", "7")?;
+            st.serialize_field("inner", &Bad(self.0))?;
+            st.end()
+        }
+    }
+    let mut runs = 0u64;
+    for mode in 0..4u8 {
+        for nested in [false, true] {
+            let r = catch_unwind(AssertUnwindSafe(|| {
+                let mut out = String::new();
+                let ser = quick_xml::se::Serializer::with_root(&mut out, Some("root")).map_err(|e| e.to_string())?;
+                let res = if nested { serde::Serialize::serialize(&Outer(mode), ser) } else { serde::Serialize::serialize(&Bad(mode), ser) };
+                match res {
+                    Err(_) => Ok::<(), String>(()),
+                    Ok(_) => well_formed(&out).map_err(|e| format!("Ok with a document that is not well-formed: {out:?}: {e}")),
+                }
+            }));
+            runs += 1;
+            match r {
+                Ok(Ok(())) => {}
+                Ok(Err(e)) => return (runs, Some(("misbehaving-client".into(), json!({"mode": mode, "nested": nested, "error": e})))),
+                Err(_) => return (runs, Some(("panic".into(), json!({"client": "serialize_value without a pending key", "mode": mode, "nested": nested})))),
+            }
+        }
+    }
+    (runs, None)
 }
 
 /// A chain of nested structs `<R><e><e>..x..</e></e></R>` of the given depth serialized with the given indentation: the
